@@ -10,7 +10,9 @@ ASSUME = [
 ]
 PROPS = {
     "C17": dict(
-        stages=[dict(name="main", gen=dict(runs=dict(quick=[bfs("MC_Pager", "C17_conv")], thorough=[bfs("MC_Pager", "C17_conv")])),
+        stages=[dict(name="prevnext-design", gen=dict(runs=[bfs("MC_PrevNext", "PrevNext_conv"),
+                                                            bfs("MC_PrevNext", "PrevNext_defect", expect_violation=True)])),
+                dict(name="main", gen=dict(runs=dict(quick=[bfs("MC_Pager", "C17_conv")], thorough=[bfs("MC_Pager", "C17_conv")])),
                      sample=dict(quick=16000, thorough=None), trace=TRACE,
                      stratify=lambda c: (c["p"]["n"], c["p"]["k"], c["p"]["algo"])), props_PN.STAGE_C17],
         rule="cases = every (N,k) with 2<=N<=12 x URL family x separator x wrapper x current-page decoration (PageNumber) "
@@ -26,8 +28,8 @@ PROPS = {
         nontrivial_key="next_found", assumptions=ASSUME, exhaustive_tiers=()),
 }
 TEXT = {
-    "C17": dict(level="TLC enumerates every conventional pager of the stated family (all 78 (N,k) cells x 3 URL families x markups; PrevNext: x label sets) from spec/Pager.tla; each is rendered and run through Apply with the page-number and the prev/next finder; TLC decides NextIsPageAfter / PrevIsPageBefore (exact expected links) on every recorded run. Exhaustive over the stated pager family in the thorough tier. Second stage: spec/PageNumber.tla (the finder transcribed as a machine: monotonic grouping, candidate patterns, adjacency/consecutiveness/gap analysis, linear formula, first-page insertion, next/prev derivation) - TLC proves at design level that every conventional pager (N <= 12, every k) is resolved to exactly (k+1, k-1), and every enumerated pager is run on the real finder, its detector steps (hooks) are replayed on the model step by step (differences are reported as DRIFT) and the returned links are judged.", ref="DESIGN.md 7 C17",
-                note="trusted base: TLC 1.8; harness/fam_pager.go renders the pager and decodes the returned URLs to page indexes by exact string match with the generated links", technique="TLA+ pager model (spec/Pager.tla) and finder model (spec/PageNumber.tla) + TLC exhaustive enumeration; real-code runs validated by TLC against spec/trace/PagerTrace.tla and, step by step through the detector hooks, spec/trace/PNTrace.tla"),
+    "C17": dict(level="TLC enumerates every conventional pager of the stated family (all 78 (N,k) cells x 3 URL families x markups; PrevNext: x label sets) from spec/Pager.tla; each is rendered and run through Apply with the page-number and the prev/next finder; TLC decides NextIsPageAfter / PrevIsPageBefore (exact expected links) on every recorded run. Exhaustive over the stated pager family in the thorough tier. Second stage: spec/PageNumber.tla (the finder transcribed as a machine: monotonic grouping, candidate patterns, adjacency/consecutiveness/gap analysis, linear formula, first-page insertion, next/prev derivation) - TLC proves at design level that every conventional pager (N <= 12, every k) is resolved to exactly (k+1, k-1), and every enumerated pager is run on the real finder, its detector steps (hooks) are replayed on the model step by step (differences are reported as DRIFT) and the returned links are judged. Third: spec/PrevNext.tla (the prev/next scorer: filter, score and choice transcribed rule by rule over the lexical facts of a link) - TLC proves LabelledLinkWins for every conventional pager (7 URL families x N <= 12 x k x 4 label sets x with/without numbered links; the defect toggle for the page-number difference must fail), and the score the real code gave to every candidate link (hook) is compared with the model's score.", ref="DESIGN.md 7 C17",
+                note="trusted base: TLC 1.8; harness/fam_pager.go renders the pager and decodes the returned URLs to page indexes by exact string match with the generated links", technique="TLA+ pager model (spec/Pager.tla), finder model (spec/PageNumber.tla) and scorer model (spec/PrevNext.tla) + TLC exhaustive enumeration; real-code runs validated by TLC against spec/trace/PagerTrace.tla and, step by step through the detector hooks, spec/trace/PNTrace.tla"),
     "C16": dict(level="TLC enumerates mixed pagers (every short sequence of anchors over 14 href kinds incl. javascript:, mailto:, empty, #, malformed, off-site, look-alike hosts, other scheme/case, scheme-relative) with and without a plain current-page number, for both finders and three page-URL shapes, plus all conventional pagers; on each real run TLC checks that a non-empty NextPage/PrevPage is absolute, http(s), on the page's host and the normalised target of an anchor of the document. Second stage: spec/PageNumber.tla - TLC checks NeverPlaceHolder and AnswerIsALink (the answer is the URL of a link item, never a javascript:/empty place holder, never the page itself inserted as first page) on the finder model for every pager of the bound over links with two numeric path components, javascript: and empty-href place holders and plain numbers; each pager is run on the real finder, replayed on the model through the detector hooks, and the returned links must be links of the pager.", ref="DESIGN.md 7 C16",
                 note="trusted base: TLC 1.8; the lexical link facts of harness/fam_pager.go (Go's net/url only resolves the document's own anchors against the page URL to build the target set)", technique="TLA+ pager model (spec/Pager.tla) and finder model (spec/PageNumber.tla) + TLC enumeration; real-code runs validated by TLC against spec/trace/PagerTrace.tla and spec/trace/PNTrace.tla"),
 }
